@@ -70,6 +70,8 @@ Hint(c) == "ng" \in DOMAIN c => ValAt(cur') = c.ng
 \* the contract step of a recorded call c made by thread t, with the results as observed
 Effect(t, c) ==
   CASE c.op = "push"    -> t = c.v[1] /\ BPush_(t, c.v)
+    [] c.op = "pushx"   -> t = c.v[1] /\ (IF c.threw THEN BPushFailed_(t, c.v) ELSE BPush_(t, c.v))
+    [] c.op = "assignx" -> IF c.threw THEN VAssignFailed_(c.v) ELSE VAssign_(c.v)
     [] c.op = "bpush"   -> t = c.p /\ BBurst_(t, ElemRun(c.p, c.first, c.n))
     [] c.op = "consume" -> IF Quiescent(t) THEN BConsumeQ_(BatchOf(c)) ELSE BConsume_(BatchOf(c))
     [] c.op = "size"    -> BSize_(c.n)
@@ -128,15 +130,24 @@ WholeVal(i, j) ==
       In(a, v) == IF as[a].c.op = "assign" THEN as[a].c.v = v ELSE as[a].c.first <= v /\ v < as[a].c.first + as[a].c.n
       LastOf(a) == IF as[a].c.op = "assign" THEN as[a].c.v ELSE as[a].c.first + as[a].c.n - 1
       Known(v) == v = InitVal \/ \E a \in DOMAIN as : In(a, v)
-      Pos(v) == IF v = InitVal THEN 0 ELSE CHOOSE a \in DOMAIN as : In(a, v)
-      Before(v, w) == Pos(v) < Pos(w) \/ (Pos(v) = Pos(w) /\ v <= w)
+      \* v was assigned no later than w (some assignment of v is not after some assignment of w)
+      Before(v, w) == v = InitVal \/ \E a, b \in DOMAIN as : a <= b /\ In(a, v) /\ In(b, w) /\ (a = b => v <= w)
   IN /\ \A k \in DOMAIN gs : Known(gs[k].c.v)
      /\ \A k \in 2..Len(gs) : Before(gs[k - 1].c.v, gs[k].c.v)
      /\ (gs # <<>> /\ as # <<>>) => gs[Len(gs)].c.v = LastOf(Len(as))
 
+\* (executions that contain a call that threw are judged by the step-wise contract only: whether such a call counts
+\* as made is left open, so the whole-execution form has no fixed set of pushed elements / assigned values)
+NoThrow(i, j) == Sel(i, j, "inv", {"pushx", "assignx"}) = <<>>
+
+\* (a state predicate used as the test of an IF is evaluated iteratively; as a conjunct of an action TLC would
+\* unfold its quantifiers recursively, one stack frame per recorded call)
+Holds(b) == IF b THEN TRUE ELSE FALSE
+
 TEnd == /\ l <= N /\ Line.k = "End"
         /\ at = Idle
-        /\ IF Line.obj = "buf" THEN BEnd_ /\ WholeBuf(start, l) ELSE VEnd_ /\ WholeVal(start, l)
+        /\ IF Line.obj = "buf" THEN BEnd_ /\ Holds(NoThrow(start, l) => WholeBuf(start, l))
+                                ELSE VEnd_ /\ Holds(NoThrow(start, l) => WholeVal(start, l))
         /\ l' = l + 1
         /\ UNCHANGED <<last, at, lin, start>>
 
